@@ -26,8 +26,11 @@ Case kinds (model = compared with the Lean model through the named driver op; ev
  randbetween  n draws of RANDBETWEEN(a, b); oracle only (judge_rand)
 A fn / pv / abs case without a formula of its own may carry a `route`: `cell` = the call is written NAME(A1,B1,...) and the
 arguments are the values of the cells A1..F1, answered by the host's callCellValue listener; `ws` = the call is written over
-several lines, NAME(<LF><blank>xa<blank>,<tab>xb<blank>)<CR LF> (without arguments: <blank>NAME(<blank>)<LF>).  Same model
-request (the argument list) and same oracle as the case without route.
+several lines, NAME(<LF><blank>xa<blank>,<tab>xb<blank>)<CR LF> (without arguments: <blank>NAME(<blank>)<LF>); `nest` = every
+argument that nest_text can write as a number text is the undefined name na..nf instead of its variable, resolved by the host's
+callVariable listener, which evaluates that text ON THE SAME PARSER during the outer evaluation.  Same model
+request (the argument list) and same oracle as the case without route.  Before every evaluation a second parser of the host
+(the decoy, which evaluates nothing) is given OTHER values under the same variable names xa..
 """
 import decimal
 import math
@@ -48,7 +51,7 @@ FUNCTIONS = ['hotxlfp.formulas.mathtrig:%s' % n for n in _MT] + [
     'hotxlfp.helper.number:to_number']
 RULE = ('case kinds fn / abs (fn for ABS) / powint / pv / ident / rand / randbetween; arguments are bound to variables, one '
         'Parser.parse per formula (NAME(xa,xb,...) unless the case carries its own formula text: the 20 written function calls '
-        'and the written PV calls below; the routes cell and ws at the end of this text write the same call otherwise). '
+        'and the written PV calls below; the routes cell, ws and nest at the end of this text write the same call otherwise). '
         'Per one-argument function (21 unary ones, LOG with its default base, ABS): 44 special points '
         '(0, +-1, +-1/2, +-2, 3, 10, 100, the floats next to +-1, float multiples of pi/4 up to 2pi, +-1e-5, +-1e-300, +-1e300, '
         '1e15, 1e22, e, +-709, 690, 745, -745.13, 0.1, 0.3, logicals), 5e-324 / -5e-324 / 1e-310 where harmless (not ACOSH, '
@@ -113,13 +116,24 @@ RULE = ('case kinds fn / abs (fn for ABS) / powint / pv / ident / rand / randbet
         'Routes (added last, over the whole list of cases in its order, index i): a fn / pv / abs case without a formula text of '
         'its own and with at most 6 arguments is given once more with route = cell when i is divisible by 9, or when i is even '
         'and one of its arguments (not text, not blank, not a list or error value) equals 0 - the ints and floats 0, 0.0, -0.0 '
-        'and FALSE -, and once more with route = ws when i is divisible by 11. cell: the formula is NAME(A1,B1,...) and the one '
+        'and FALSE -, once more with route = ws when i is divisible by 11, and once more with route = nest when i is divisible by 7 and at least one '
+        'of its arguments is a number nest_text can write. cell: the formula is NAME(A1,B1,...) and the one '
         'callCellValue listener of the shared parser answers the argument values for A1..F1 (setter called with the value, a '
         'blank argument with None; another label gets no answer); the variables xa.. are set as well. ws: the formula is '
-        'NAME( LF blank xa blank , tab xb ... blank ) CR LF, without arguments blank NAME( blank ) LF. Both are judged by the '
+        'NAME( LF blank xa blank , tab xb ... blank ) CR LF, without arguments blank NAME( blank ) LF. nest: nest_text(a) = the text of a '
+        'formula worth exactly the number a - an int 0 <= a < 10^15 as its digits, a negative int above -10^15 as (0-n), a finite '
+        'float that is 0 or has 1e-15 < |a| < 1e15 as its positional decimal (no exponent, .0 appended to a whole one; only if float() '
+        'reads it back as |a|), negative ones and -0.0 as (0-t); logicals, texts, blanks, lists, error values and the other numbers '
+        'have none; the formula is NAME(..) with the name na, nb, .. nf in the position of every argument that has such a text and the '
+        'variable xa.. elsewhere; na.. are not registered, the one callVariable listener of the shared parser answers them with '
+        'setter(parse(text)[result]) evaluated ON THE SAME PARSER in the middle of the outer evaluation (the table _nestvals is '
+        'refilled before every evaluation, whatever the route). All three are judged by the '
         'same oracle on the argument list and sent to the model as the same request as the case without route (the route is not '
-        'part of it). About 940 cell and 480 ws cases quick, 56400 and 20900 thorough; with them about 9200 cases quick (26500 '
-        'at scale 5), 618000 thorough, about 7000 quick / 349000 thorough compared with the model. search() generates no routes.')
+        'part of it). DECOY: the host has a second hotxlfp.Parser that evaluates nothing; before EVERY evaluation of every kind '
+        '(_eval) it gets, under each variable name xa.. of the call, another value (7.25, or -v-1 when the argument v is a float), so '
+        'that a value taken from another parser\'s variables shows in the result. About 940 cell, 480 ws and 540 nest cases quick, '
+        '56400, 20900 and 30800 thorough; with them about 9700 cases quick (27900 '
+        'at scale 5), 649000 thorough, about 7500 quick / 379000 thorough compared with the model. search() generates no routes.')
 TRUSTED = ['L3 is not proved: libm (sin, cos, tan, asin, acos, atan, atan2, sinh, cosh, tanh, asinh, acosh, atanh, sqrt, log, '
            'pow) approximates the real functions the theorems are about; monitored by the 60-digit reference of this '
            'plugin (relative 1e-9 plus absolute 1e-12: a result below 1e-12 in magnitude is only held to the absolute bound)',
@@ -146,6 +160,14 @@ TRUSTED = ['L3 is not proved: libm (sin, cos, tan, asin, acos, atan, atan2, sinh
            'blanks) and that blanks, tabs, LF and CR LF between the tokens of a call change nothing is not modelled here '
            '(C10 / C05), it is exercised by the comparison of the result and by the oracle only; the listener answers from a '
            'table the harness refills before every evaluation (_cellvals, cleared first)',
+           'route nest: nest_text is the harness\'s own writer of number texts (decimal.Decimal(repr(x)) in positional form, checked '
+           'with float() to read back as |x|; a negative number as (0-t), so -0.0 arrives as 0.0); that the inner Parser.parse of such '
+           'a text yields exactly that number (C05 literals, C04 subtraction) and that the listener\'s setter value becomes the '
+           'value of the undefined name (C10) is not modelled here - the model gets the argument list; the callVariable listener is '
+           'registered on the shared parser for all cases and acts only on the names in _nestvals (na..nf, never used by a case '
+           'without route nest)',
+           'decoy: the second parser only receives set_variable calls, it never evaluates; the values it holds (7.25 / -v-1) are '
+           'the harness\'s choice, different from the real argument except by coincidence (an argument that is itself 7.25)',
            'PV with 1+rate < 0 and a non-integral number of periods returns a Python complex number; the model says #ERROR! '
            '(outside the statement\'s rate > -1; not generated)',
            'the runner classifies the parser\'s answer as error code / int / finite float / nan or inf / other (a logical, '
@@ -187,7 +209,9 @@ ASSUMPTIONS = ['arguments are confined to magnitudes where the true result and t
                'the value of a call does not depend on the route of its arguments or on its layout: an argument that is the '
                'value of a cell the host\'s listener answers (0, 0.0 and FALSE are values, a blank is a blank) counts as '
                'the same argument held by a variable, and the call written over several lines with blanks, tabs, LF and CR LF '
-               'between its tokens is the same call',
+               'between its tokens is the same call; an argument that is an undefined name the host\'s callVariable listener '
+               'resolves by a nested evaluation on the same parser counts as that number, and what another parser of the same '
+               'process holds under the same variable names has no influence on the value',
                'RAND: every draw is a float in [0,1). RANDBETWEEN is judged for integer-valued bounds a <= b (ints, integral '
                'floats, integer text, logicals): every draw is an int in [a,b]; with a non-number bound every draw must be '
                'an error; a > b, non-integral and blank bounds are not judged']
